@@ -12,6 +12,8 @@
 name: str_init_from_fp.line
 define: VP=str, U_FP, U_FP_LINE
 src: str.c, obj.c
+native: str
+native_includes: str.c
 enforce: spif_str_init_from_fp
 tier: B
 unwind: 3
@@ -24,6 +26,8 @@ bound: a line of 1..4095 bytes including its newline (one fgets chunk
 name: str_init_from_fp.eof0
 define: VP=str, U_FP, U_FP_EOF0
 src: str.c, obj.c
+native: str
+native_includes: str.c
 enforce: spif_str_init_from_fp
 tier: B
 unwind: 3
@@ -36,6 +40,8 @@ bound: the stream is already at end of file
 name: str_init_from_fp.nonl
 define: VP=str, U_FP, U_FP_NONL
 src: str.c, obj.c
+native: str
+native_includes: str.c
 enforce: spif_str_init_from_fp
 tier: B
 unwind: 3
@@ -48,6 +54,8 @@ bound: the stream ends after 1..4095 bytes without a newline (one chunk, then fg
 name: str_init_from_fp.long
 define: VP=str, U_FP, U_FP_LONG
 src: str.c, obj.c
+native: str
+native_includes: str.c
 enforce: spif_str_init_from_fp
 tier: B
 unwind: 3
@@ -60,6 +68,8 @@ bound: the line / rest of the stream has 4096..8190 bytes (two fgets chunks)
 name: str_init_from_fd.eof
 define: VP=str, VSTR_READ_DATA_UNOBSERVED, VSTR_INST=2, VSTR_OWN_REALLOC, U_FD, VG_FIRST=2, U_ERRNO_CLEAN
 src: str.c, obj.c
+native: str
+native_includes: str.c
 enforce: spif_str_init_from_fd
 tier: B
 unwind: 3
@@ -72,6 +82,8 @@ bound: the first read() reports end of file
 name: str_init_from_fd.eof_errno
 define: VP=str, VSTR_READ_DATA_UNOBSERVED, VSTR_INST=2, VSTR_OWN_REALLOC, U_FD, VG_FIRST=2, U_ERRNO_EINTR
 src: str.c, obj.c
+native: str
+native_includes: str.c
 enforce: spif_str_init_from_fd
 tier: B
 unwind: 3
@@ -84,6 +96,8 @@ bound: the first read() reports end of file
 name: str_init_from_fd.data
 define: VP=str, VSTR_READ_DATA_UNOBSERVED, VSTR_INST=2, VSTR_OWN_REALLOC, U_FD, VG_FIRST=1
 src: str.c, obj.c
+native: str
+native_includes: str.c
 enforce: spif_str_init_from_fd
 tier: B
 unwind: 4
@@ -96,6 +110,8 @@ flags: --slice-formula
 name: str_init_from_fd.eintr
 define: VP=str, VSTR_READ_DATA_UNOBSERVED, VSTR_INST=2, VSTR_OWN_REALLOC, U_FD, VG_FIRST=3
 src: str.c, obj.c
+native: str
+native_includes: str.c
 enforce: spif_str_init_from_fd
 tier: B
 unwind: 4
@@ -108,6 +124,8 @@ flags: --slice-formula
 name: str_new_from_fp.line
 define: VP=str, U_NEWFP, U_FP_LINE
 src: str.c, obj.c
+native: str
+native_includes: str.c
 enforce: spif_str_new_from_fp
 tier: B
 unwind: 3
@@ -120,6 +138,8 @@ bound: a line of 1..4095 bytes including its newline (one fgets chunk)
 name: str_new_from_fd.eof
 define: VP=str, VSTR_READ_DATA_UNOBSERVED, VSTR_INST=2, VSTR_OWN_REALLOC, U_NEWFD, VG_FIRST=2, U_ERRNO_CLEAN
 src: str.c, obj.c
+native: str
+native_includes: str.c
 enforce: spif_str_new_from_fd
 tier: B
 unwind: 3
@@ -132,6 +152,8 @@ bound: the first read() reports end of file
 name: str_sprintf.empty
 define: VP=str, U_SPRINTF, U_EMPTY
 src: str.c, obj.c
+native: str
+native_includes: str.c
 enforce: spif_str_sprintf
 backend: sat,z3
 timeout: 200
@@ -141,6 +163,8 @@ flags: --slice-formula
 name: str_sprintf.nonempty
 define: VP=str, U_SPRINTF, U_NONEMPTY
 src: str.c, obj.c
+native: str
+native_includes: str.c
 enforce: spif_str_sprintf
 backend: sat,z3
 timeout: 200
@@ -150,6 +174,8 @@ flags: --slice-formula
 name: str_sprintf.intmax
 define: VP=str, U_SPRINTF, U_INTMAX
 src: str.c, obj.c
+native: str
+native_includes: str.c
 enforce: spif_str_sprintf
 backend: sat,z3
 timeout: 200
@@ -159,6 +185,8 @@ flags: --slice-formula
 name: ustr_init_from_fp.line
 define: VP=ustr, U_FP, U_FP_LINE
 src: ustr.c, obj.c
+native: str
+native_includes: ustr.c
 enforce: spif_ustr_init_from_fp
 tier: B
 unwind: 3
@@ -171,6 +199,8 @@ bound: a line of 1..4095 bytes including its newline (one fgets chunk
 name: ustr_init_from_fp.eof0
 define: VP=ustr, U_FP, U_FP_EOF0
 src: ustr.c, obj.c
+native: str
+native_includes: ustr.c
 enforce: spif_ustr_init_from_fp
 tier: B
 unwind: 3
@@ -183,6 +213,8 @@ bound: the stream is already at end of file
 name: ustr_init_from_fp.nonl
 define: VP=ustr, U_FP, U_FP_NONL
 src: ustr.c, obj.c
+native: str
+native_includes: ustr.c
 enforce: spif_ustr_init_from_fp
 tier: B
 unwind: 3
@@ -195,6 +227,8 @@ bound: the stream ends after 1..4095 bytes without a newline (one chunk, then fg
 name: ustr_init_from_fp.long
 define: VP=ustr, U_FP, U_FP_LONG
 src: ustr.c, obj.c
+native: str
+native_includes: ustr.c
 enforce: spif_ustr_init_from_fp
 tier: B
 unwind: 3
@@ -207,6 +241,8 @@ bound: the line / rest of the stream has 4096..8190 bytes (two fgets chunks)
 name: ustr_init_from_fd.eof
 define: VP=ustr, VSTR_READ_DATA_UNOBSERVED, VSTR_INST=2, VSTR_OWN_REALLOC, U_FD, VG_FIRST=2, U_ERRNO_CLEAN
 src: ustr.c, obj.c
+native: str
+native_includes: ustr.c
 enforce: spif_ustr_init_from_fd
 tier: B
 unwind: 3
@@ -219,6 +255,8 @@ bound: the first read() reports end of file
 name: ustr_init_from_fd.eof_errno
 define: VP=ustr, VSTR_READ_DATA_UNOBSERVED, VSTR_INST=2, VSTR_OWN_REALLOC, U_FD, VG_FIRST=2, U_ERRNO_EINTR
 src: ustr.c, obj.c
+native: str
+native_includes: ustr.c
 enforce: spif_ustr_init_from_fd
 tier: B
 unwind: 3
@@ -231,6 +269,8 @@ bound: the first read() reports end of file
 name: ustr_init_from_fd.data
 define: VP=ustr, VSTR_READ_DATA_UNOBSERVED, VSTR_INST=2, VSTR_OWN_REALLOC, U_FD, VG_FIRST=1
 src: ustr.c, obj.c
+native: str
+native_includes: ustr.c
 enforce: spif_ustr_init_from_fd
 tier: B
 unwind: 4
@@ -243,6 +283,8 @@ flags: --slice-formula
 name: ustr_init_from_fd.eintr
 define: VP=ustr, VSTR_READ_DATA_UNOBSERVED, VSTR_INST=2, VSTR_OWN_REALLOC, U_FD, VG_FIRST=3
 src: ustr.c, obj.c
+native: str
+native_includes: ustr.c
 enforce: spif_ustr_init_from_fd
 tier: B
 unwind: 4
@@ -255,6 +297,8 @@ flags: --slice-formula
 name: ustr_new_from_fp.line
 define: VP=ustr, U_NEWFP, U_FP_LINE
 src: ustr.c, obj.c
+native: str
+native_includes: ustr.c
 enforce: spif_ustr_new_from_fp
 tier: B
 unwind: 3
@@ -267,6 +311,8 @@ bound: a line of 1..4095 bytes including its newline (one fgets chunk)
 name: ustr_new_from_fd.eof
 define: VP=ustr, VSTR_READ_DATA_UNOBSERVED, VSTR_INST=2, VSTR_OWN_REALLOC, U_NEWFD, VG_FIRST=2, U_ERRNO_CLEAN
 src: ustr.c, obj.c
+native: str
+native_includes: ustr.c
 enforce: spif_ustr_new_from_fd
 tier: B
 unwind: 3
@@ -279,6 +325,8 @@ bound: the first read() reports end of file
 name: ustr_sprintf.empty
 define: VP=ustr, U_SPRINTF, U_EMPTY
 src: ustr.c, obj.c
+native: str
+native_includes: ustr.c
 enforce: spif_ustr_sprintf
 backend: sat,z3
 timeout: 200
@@ -288,6 +336,8 @@ flags: --slice-formula
 name: ustr_sprintf.nonempty
 define: VP=ustr, U_SPRINTF, U_NONEMPTY
 src: ustr.c, obj.c
+native: str
+native_includes: ustr.c
 enforce: spif_ustr_sprintf
 backend: sat,z3
 timeout: 200
@@ -297,6 +347,8 @@ flags: --slice-formula
 name: ustr_sprintf.intmax
 define: VP=ustr, U_SPRINTF, U_INTMAX
 src: ustr.c, obj.c
+native: str
+native_includes: ustr.c
 enforce: spif_ustr_sprintf
 backend: sat,z3
 timeout: 200
